@@ -62,6 +62,7 @@ class Contract:
         self.check_wf = check_wf
         self.env = dict(env or {})
         self.optional_outcomes = ()
+        self.raises_only_id = "C03/raises-only"
         self.quantified_wf = ()  # dict types whose WF element invariant is also assumed as a quantified axiom
         self.witness = dict(witness or {})  # name -> (T, witness expr): existential in callers, witness term when proving
 
@@ -428,8 +429,9 @@ def verify_unit(world, func, ct, receiver=None, unit_name=None, setup=None, max_
                     clauses = cl
                     break
             if clauses is None:
-                site = getattr(val.site, "lineno", None)
-                ob = check_goal(I, z3.BoolVal(False), f"{ct.qualname.rsplit('.', 1)[-1]}/raises-only:{val.cls.name}@{site}", "property", unit_name)
+                fname = ct.qualname.replace(".__wrapped__", "").rsplit(".", 1)[-1]
+                ob = check_goal(I, z3.BoolVal(False), f"{ct.raises_only_id}/{fname}:{val.cls.name}", "property", unit_name)
+                ob.path = ob.path + [f"raised at line {getattr(val.site, 'lineno', '?')}"]
                 return outcome
             env2 = dict(env)
             env2["exc"] = val
